@@ -1,6 +1,6 @@
 -- spins for a content-dependent number of iterations, then echoes like echo.lua (different completion orders)
 function validate(ctx, content)
-  local n = (ctx.line * 7919) % 400000
+  local n = (ctx.line * 7919) % 60000
   local x = 0
   for i = 1, n do x = x + i % 7 end
   local keys = {}
